@@ -17,6 +17,27 @@ pub enum CB {
     By,
 }
 
+/// hand-written Logos impls over WRAPPER sources (`impl<T: Deref> Source for T`): only bump and
+/// the accessors are exercised, `lex` is never asked for a token
+macro_rules! wrapper_token {
+    ($name:ident, $src:ty) => {
+        #[derive(Debug, Clone, PartialEq)]
+        pub struct $name;
+        impl<'s> Logos<'s> for $name {
+            type Extras = ();
+            type Source = $src;
+            type Error = ();
+            fn lex(_lex: &mut Lexer<'s, Self>) -> Option<Result<Self, ()>> {
+                None
+            }
+        }
+    };
+}
+wrapper_token!(WString, String);
+wrapper_token!(WBoxStr, Box<str>);
+wrapper_token!(WVec, Vec<u8>);
+wrapper_token!(WRefStr, &'static str);
+
 fn n_values(len: usize) -> Vec<usize> {
     let mut v: Vec<usize> = (0..=len + 2).collect();
     v.extend(usize::MAX - len - 2..=usize::MAX);
@@ -67,6 +88,34 @@ pub fn run(_tier: &str, rep: &mut Report) {
             }
         }
     }
+    // ---------------- wrapper sources
+    macro_rules! wrapper_sweep {
+        ($tok:ty, $kind:expr, $mk:expr, $is_str:expr) => {
+            for src in sources {
+                let owned = $mk(src);
+                let bytes = src.as_bytes();
+                let positions: Vec<usize> = (0..=bytes.len()).filter(|&i| !$is_str || src.is_char_boundary(i)).collect();
+                for &pos in &positions {
+                    for n in n_values(bytes.len()) {
+                        let mut lex: Lexer<$tok> = Lexer::new(&owned);
+                        lex.bump(pos);
+                        let want_ok = pos.checked_add(n).map_or(false, |e| e <= bytes.len() && (!$is_str || src.is_char_boundary(e)));
+                        let r = catch_unwind(AssertUnwindSafe(|| lex.bump(n)));
+                        let sp = lex.span();
+                        // start stays 0 for these (no next()): compare the end only
+                        check(rep, $kind, bytes, pos, n, want_ok, r.is_ok(), pos.min(sp.start.max(pos)), sp.end, |i| i <= bytes.len() && (!$is_str || src.is_char_boundary(i)), || {
+                            let sp = lex.span();
+                            sp.start == 0 && lex.remainder().len() == bytes.len() - sp.end && lex.slice().len() == sp.end
+                        });
+                    }
+                }
+            }
+        };
+    }
+    wrapper_sweep!(WString, "String", |s: &str| s.to_string(), true);
+    wrapper_sweep!(WBoxStr, "Box<str>", |s: &str| s.to_string().into_boxed_str(), true);
+    wrapper_sweep!(WVec, "Vec<u8>", |s: &str| s.as_bytes().to_vec(), false);
+    wrapper_sweep!(WRefStr, "&str", |s: &'static str| s, true);
     let _ = std::panic::take_hook();
     rep.samples.push(serde_json::json!({"source": "é€😊", "position": 2, "n": [1, 3, "usize::MAX", "usize::MAX-1"], "expected": ["panic (inside €)", "ok", "panic", "panic"]}));
 }
